@@ -1,0 +1,227 @@
+//go:build verif
+
+package bbolt
+
+import (
+	"unsafe"
+
+	"go.etcd.io/bbolt/internal/common"
+	fl "go.etcd.io/bbolt/internal/freelist"
+)
+
+// Verification hooks and accessors. Compiled only with `-tags verif`; used only by the
+// external verification harness. Nothing here changes behaviour unless VerifHook is set.
+
+// VerifHooks are process-wide callbacks.
+type VerifHooks struct {
+	// IO is called before every write / fdatasync / truncate / fsync / mmap issued by a DB.
+	// kind is one of "write", "fdatasync", "truncate", "fsync", "mmap". For "write", off is the
+	// file offset and data the bytes; otherwise off carries the size argument (or 0).
+	// A non-nil error is returned to the caller INSTEAD of performing the operation.
+	IO func(db *DB, kind string, off int64, data []byte) error
+	// FL is called after every freelist operation issued through the DB's freelist.
+	FL func(db *DB, op string, txid uint64, a, b, ret uint64)
+}
+
+var VerifHook *VerifHooks
+
+func verifOpen(db *DB) {
+	orig := db.ops.writeAt
+	db.ops.writeAt = func(b []byte, off int64) (int, error) {
+		if h := VerifHook; h != nil && h.IO != nil {
+			if err := h.IO(db, "write", off, b); err != nil {
+				return 0, err
+			}
+		}
+		return orig(b, off)
+	}
+}
+
+func verifIO(db *DB, kind string, arg int64) error {
+	if h := VerifHook; h != nil && h.IO != nil {
+		return h.IO(db, kind, arg, nil)
+	}
+	return nil
+}
+
+func verifWrapFreelist(db *DB, f fl.Interface) fl.Interface {
+	return fl.VerifWrap(f, func(op string, txid, a, b, ret uint64) {
+		if h := VerifHook; h != nil && h.FL != nil {
+			h.FL(db, op, txid, a, b, ret)
+		}
+	})
+}
+
+// ---- freelist access for the harness (internal/freelist is not importable from outside) ----
+
+type VerifFreelist struct{ f fl.Interface }
+
+func VerifNewFreelist(kind string) *VerifFreelist {
+	if kind == "hashmap" {
+		return &VerifFreelist{fl.NewHashMapFreelist()}
+	}
+	return &VerifFreelist{fl.NewArrayFreelist()}
+}
+
+func verifPgids(ids []uint64) common.Pgids {
+	r := make(common.Pgids, len(ids))
+	for i, x := range ids {
+		r[i] = common.Pgid(x)
+	}
+	return r
+}
+
+func (v *VerifFreelist) Init(ids []uint64) { v.f.Init(verifPgids(ids)) }
+func (v *VerifFreelist) Allocate(txid uint64, n int) uint64 {
+	return uint64(v.f.Allocate(common.Txid(txid), n))
+}
+func (v *VerifFreelist) Free(txid, id uint64, overflow uint32) {
+	buf := make([]byte, 64)
+	p := (*common.Page)(unsafe.Pointer(&buf[0]))
+	p.SetId(common.Pgid(id))
+	p.SetOverflow(overflow)
+	v.f.Free(common.Txid(txid), p)
+}
+func (v *VerifFreelist) Rollback(txid uint64)           { v.f.Rollback(common.Txid(txid)) }
+func (v *VerifFreelist) AddReadonlyTXID(txid uint64)    { v.f.AddReadonlyTXID(common.Txid(txid)) }
+func (v *VerifFreelist) RemoveReadonlyTXID(txid uint64) { v.f.RemoveReadonlyTXID(common.Txid(txid)) }
+func (v *VerifFreelist) ReleasePendingPages()           { v.f.ReleasePendingPages() }
+func (v *VerifFreelist) Count() int                     { return v.f.Count() }
+func (v *VerifFreelist) FreeCount() int                 { return v.f.FreeCount() }
+func (v *VerifFreelist) PendingCount() int              { return v.f.PendingCount() }
+func (v *VerifFreelist) Freed(id uint64) bool           { return v.f.Freed(common.Pgid(id)) }
+func (v *VerifFreelist) EstimatedWritePageSize() int    { return v.f.EstimatedWritePageSize() }
+func (v *VerifFreelist) Copyall() []uint64 {
+	dst := make([]common.Pgid, v.f.Count())
+	v.f.Copyall(dst)
+	r := make([]uint64, len(dst))
+	for i, x := range dst {
+		r[i] = uint64(x)
+	}
+	return r
+}
+
+// State returns the free ids and, per pending txid, (page id, allocating txid) pairs plus lastReleaseBegin.
+func (v *VerifFreelist) State() (free []uint64, pending map[uint64][][2]uint64, lrb map[uint64]uint64) {
+	return fl.VerifState(v.f)
+}
+
+// Write serialises the freelist into a fresh page image of the size Write needs
+// (rounded up to whole pages of pageSize) and returns it.
+func (v *VerifFreelist) Write(pageSize int) []byte {
+	sz := v.f.EstimatedWritePageSize()
+	n := sz/pageSize + 1
+	buf := make([]byte, n*pageSize)
+	p := (*common.Page)(unsafe.Pointer(&buf[0]))
+	p.SetOverflow(uint32(n - 1))
+	v.f.Write(p)
+	return buf
+}
+func (v *VerifFreelist) Read(img []byte)   { v.f.Read((*common.Page)(unsafe.Pointer(&img[0]))) }
+func (v *VerifFreelist) Reload(img []byte) { v.f.Reload((*common.Page)(unsafe.Pointer(&img[0]))) }
+func (v *VerifFreelist) NoSyncReload(ids []uint64) {
+	v.f.NoSyncReload(verifPgids(ids))
+}
+
+// VerifDBFreelist exposes the live freelist of an open DB (nil if not loaded).
+func VerifDBFreelist(db *DB) *VerifFreelist {
+	if db.freelist == nil {
+		return nil
+	}
+	return &VerifFreelist{db.freelist}
+}
+
+// ---- layout constants for the constants tie ----
+
+func VerifConsts() map[string]uint64 {
+	var pg common.Page
+	var m common.Meta
+	var ib common.InBucket
+	_ = pg
+	return map[string]uint64{
+		"page_header_size":     uint64(common.PageHeaderSize),
+		"page_sizeof":          uint64(unsafe.Sizeof(pg)),
+		"meta_sizeof":          uint64(unsafe.Sizeof(m)),
+		"inbucket_sizeof":      uint64(unsafe.Sizeof(ib)),
+		"bucket_header_size":   uint64(common.BucketHeaderSize),
+		"branch_elem_size":     uint64(common.BranchPageElementSize),
+		"leaf_elem_size":       uint64(common.LeafPageElementSize),
+		"min_keys_per_page":    uint64(common.MinKeysPerPage),
+		"branch_page_flag":     uint64(common.BranchPageFlag),
+		"leaf_page_flag":       uint64(common.LeafPageFlag),
+		"meta_page_flag":       uint64(common.MetaPageFlag),
+		"freelist_page_flag":   uint64(common.FreelistPageFlag),
+		"bucket_leaf_flag":     uint64(common.BucketLeafFlag),
+		"magic":                uint64(common.Magic),
+		"version":              uint64(common.Version),
+		"pgid_no_freelist":     uint64(common.PgidNoFreelist),
+		"max_key_size":         uint64(MaxKeySize),
+		"max_value_size":       uint64(MaxValueSize),
+		"max_alloc_size":       uint64(common.MaxAllocSize),
+		"default_alloc_size":   uint64(common.DefaultAllocSize),
+		"max_mmap_step":        uint64(common.MaxMmapStep),
+		"max_map_size":         uint64(common.MaxMapSize),
+		"default_fill_percent": uint64(DefaultFillPercent * 100),
+		"default_max_batch":    uint64(common.DefaultMaxBatchSize),
+	}
+}
+
+// ---- the page/node tree exactly as a cursor sees it ----
+
+// VerifTree is one page or materialised node as pageNode presents it to a cursor.
+type VerifTree struct {
+	Leaf   bool
+	IsNode bool
+	Pgid   uint64
+	Keys   [][]byte
+	Vals   [][]byte // leaf only
+	Flags  []uint32 // leaf only
+	Kids   []*VerifTree
+}
+
+func VerifDumpTree(b *Bucket) *VerifTree { return verifDumpAt(b, b.RootPage()) }
+
+func verifDumpAt(b *Bucket, id common.Pgid) *VerifTree {
+	p, n := b.pageNode(id)
+	t := &VerifTree{Pgid: uint64(id)}
+	if n != nil {
+		t.IsNode = true
+		t.Leaf = n.isLeaf
+		for i := range n.inodes {
+			in := &n.inodes[i]
+			t.Keys = append(t.Keys, append([]byte{}, in.Key()...))
+			if n.isLeaf {
+				t.Vals = append(t.Vals, append([]byte{}, in.Value()...))
+				t.Flags = append(t.Flags, in.Flags())
+			} else {
+				t.Kids = append(t.Kids, verifDumpAt(b, in.Pgid()))
+			}
+		}
+		return t
+	}
+	t.Leaf = p.IsLeafPage()
+	for i := 0; i < int(p.Count()); i++ {
+		if t.Leaf {
+			e := p.LeafPageElement(uint16(i))
+			t.Keys = append(t.Keys, append([]byte{}, e.Key()...))
+			t.Vals = append(t.Vals, append([]byte{}, e.Value()...))
+			t.Flags = append(t.Flags, e.Flags())
+		} else {
+			e := p.BranchPageElement(uint16(i))
+			t.Keys = append(t.Keys, append([]byte{}, e.Key()...))
+			t.Kids = append(t.Kids, verifDumpAt(b, e.Pgid()))
+		}
+	}
+	return t
+}
+
+// VerifDBInfo reports sizes the growth model needs.
+func VerifDBInfo(db *DB) (pageSize, datasz int, fileSize int64) {
+	var fs int64
+	if db.file != nil {
+		if st, err := db.file.Stat(); err == nil {
+			fs = st.Size()
+		}
+	}
+	return db.pageSize, db.datasz, fs
+}
